@@ -479,6 +479,9 @@ Proof.
   - pose proof (autophagy_inv cfg s ex I) as H.
     destruct (autophagy cfg s) as [s' n]. exact H.
   - cbn [fst]. apply (Inv_same cfg _ s); [reflexivity..|exact I].
+  - (* clear_recycling_bin: only the bin changes, and nothing is in it *)
+    cbn [fst]. destruct I as [P1 P2 P3 P4 P5 P6 P7 P8 P9].
+    constructor; try assumption. cbn [bin set_bin]. intros k v [].
 Qed.
 
 Lemma step_inv : forall cfg s o,
@@ -606,6 +609,7 @@ Proof.
     pose proof (after_take_le k (queue s)). lia.
   - unfold autophagy, qlen in *. cbn [fst queue].
     pose proof (filter_length_le (fresh cfg (now s)) (queue s)). lia.
+  - exact Hq.
   - exact Hq.
 Qed.
 
@@ -938,6 +942,7 @@ Proof.
   - destruct (autophagy_grows cfg s) as (n & G & N).
     destruct (autophagy cfg s) as [s' m]. exists n; auto.
   - exists []. cbn [fst]. split; [reflexivity|left; constructor].
+  - exists []. cbn [fst]. split; [reflexivity|left; constructor].
 Qed.
 
 Lemma with_fate_rev_dfate : forall cfg items,
@@ -966,7 +971,7 @@ Proof.
   destruct (step_grows cfg (c_base cs) o) as (new & G & N).
   destruct (CInv_grow cfg cs _ new G CI) as (B' & D' & O').
   destruct (step cfg (c_base cs) o) as [s' r] eqn:S. cbn [fst] in *.
-  destruct o as [t off out|out|out|k| |d0]; cbn [step] in S;
+  destruct o as [t off out|out|out|k| |d0| ]; cbn [step] in S;
     try (inversion S; subst s' r; clear S;
          destruct N as [N|[k0 Hk]]; [|discriminate];
          constructor; cbn [c_base c_open c_done]; try assumption;
